@@ -23,12 +23,7 @@ import cbor2  # noqa: E402
 
 # Defects of the unchanged code rediscovered by the oracle, reported to the coordinator, not (yet) listed
 # in known_findings.json.  Printed as PENDING-FINDING; they do not fail the run.
-PENDING_FINDINGS = {
-    'C19/asserts-forwarded-but-nothing-sent/fragments-on-route-whose-cl-is-not-attached':
-        'residue of the defect fixed in cf814c0: the TX route matches, the bundle exceeds its MTU and the fragment step takes it '
-        'over, but the route names a CL that is not attached: every fragment fails in its own send_bundle ("no sender" escapes the '
-        'idle callback), nothing reaches a CL, and the status report still asserts "forwarded" (Coq: C19_content_refuted)',
-}
+PENDING_FINDINGS = {}  # the residual corner (fragments on a route whose CL is not attached) is a KNOWN finding now
 
 NODE = 'dtn://n0/'
 RPT = 'dtn://rpt/ep'
